@@ -4,6 +4,9 @@ import (
 	"fmt"
 	"time"
 
+	"github.com/goghcrow/yae/types"
+	"github.com/goghcrow/yae/val"
+
 	"verif/harness/bridge"
 	"verif/harness/ref"
 	"verif/harness/run"
@@ -265,6 +268,7 @@ func init() {
 			both01 := func(c *run.Ctx, o *ProgObs) { oracleC01(c, o); oracleC05(c, o) }
 			fixedCases(c, sharedNodeCases(), both01)
 			fixedCases(c, dupRegistrationCases(), func(c *run.Ctx, o *ProgObs) { oracleC01(c, o); oracleC05(c, o); oracleC04(c, o) })
+			fixedCases(c, confusableCases(), func(c *run.Ctx, o *ProgObs) { oracleC01(c, o); oracleC04(c, o) })
 			user := ref.UserFuns()
 			opt := ref.GenOpt{MaxDepth: 5, PFail: 0.02, PSugar: 0.6, PBoundary: 0.1, PGroup: 0.03, UserFuns: true}
 			stream(c, "mixed", c.Pick(5000, 120000), opt, user, 0, oracleC01)
@@ -275,7 +279,7 @@ func init() {
 		},
 		Level: "exploration",
 		Rule: "type-directed programs and type-breaking mutants (only those the real checker accepts are executed) over environments whose values carry permuted object-field layouts; " +
-			"all field-order permutations (2-4 fields) of structurally equal objects side by side in list / if / ?: / map / get / union / lazy host call / nested; host data through conv with interface-typed parts; " +
+			"string literals whose text is a rendering of a time / number / boolean literal of the same program; all field-order permutations (2-4 fields) of structurally equal objects side by side in list / if / ?: / map / get / union / lazy host call / nested; host data through conv with interface-typed parts; " +
 			"monitor = deep walk of every returned value and of every value handed to a host function against the checker's OWN inferred type (nil, type of each component vs. the container's declared component type, map-key tags, object slot counts), on 4 back ends, also under -race (checkptr). distinct = distinct accepted source",
 		Assume: []string{"types.Equals is cross-checked against the reference equality on every walked node"},
 		Builds: []string{"race", "asan"}, SanFrac: 8,
@@ -527,6 +531,11 @@ func overloadCases() []*ProgCase {
 	env.Put("g1", &ref.V{T: ref.TFun([]*ref.Ty{ref.TStr}, ref.TBool)})
 	env.Put("g2", &ref.V{T: ref.TFun([]*ref.Ty{ref.TList(ref.TNum)}, ref.TNum)})
 	env.Put("g3", &ref.V{T: ref.TFun([]*ref.Ty{ref.TStr, ref.TStr}, ref.TBool)})
+	shL, shM := ref.TList(ref.TNum), ref.TMap(ref.TStr, ref.TNum)
+	// variables bound to one type object share its node in the type environment
+	env.PutTyped("ys", shL, ref.VList(ref.TNum, ref.VNum(5)))
+	env.PutTyped("ys2", shL, ref.VList(ref.TNum, ref.VNum(6)))
+	env.PutTyped("ms", shM, ref.VMap(ref.TStr, ref.TNum, ref.KV{K: ref.VStr("k"), V: ref.VNum(1)}))
 	a, b, k := ref.TVar("a"), ref.TVar("b"), ref.TVar("k")
 	konst := func(s string) func(*ref.Evaluator, *ref.Ty, []ref.Arg) *ref.V {
 		return func(*ref.Evaluator, *ref.Ty, []ref.Arg) *ref.V { return ref.VStr(s) }
@@ -556,6 +565,10 @@ func overloadCases() []*ProgCase {
 		// higher-order: ap :: a -> (a -> b) -> str ; ap2 :: (a -> b) -> list[a] -> str
 		mk("ap", []*ref.Ty{a, ref.TFun([]*ref.Ty{a}, b)}, ref.TStr, "ap"),
 		mk("ap2", []*ref.Ty{ref.TFun([]*ref.Ty{a, b}, ref.TBool), a, b}, ref.TStr, "ap2"),
+		// one concrete composite type object used for several parameters of a polymorphic function
+		mk("pk2", []*ref.Ty{shL, shL, a}, ref.TStr, "pk2"),
+		mk("pk3", []*ref.Ty{shM, a, shM}, ref.TStr, "pk3"),
+		mk("pk4", []*ref.Ty{oAB, oAB, a, a}, ref.TStr, "pk4"),
 	}
 	n := func(i int) *ref.E { return ref.Num(fmt.Sprint(i), float64(i)) }
 	bot := ref.Subscript(ref.List(), n(0))
@@ -577,6 +590,11 @@ func overloadCases() []*ProgCase {
 		ref.Call("ap", ref.Str("x"), ref.Ident("g1")), ref.Call("ap", n(1), ref.Ident("g1")), ref.Call("ap", ref.List(n(1)), ref.Ident("g2")),
 		ref.Call("ap2", ref.Ident("f1"), n(1), ref.Str("s")), ref.Call("ap2", ref.Ident("f1"), ref.Str("s"), n(1)), ref.Call("ap2", ref.Ident("g3"), ref.Str("s"), ref.Str("t")),
 		ref.Call("nest", ref.Map(nil, nil)), ref.Call("nest", ref.List()), ref.Call("nest", ref.Map([]*ref.E{n(1)}, []*ref.E{ref.Map(nil, nil)})),
+		ref.Call("pk2", ref.Ident("ys"), ref.Ident("ys"), ref.Str("k")), ref.Call("pk2", ref.Ident("ys"), ref.Ident("ys2"), ref.Str("k")), ref.Call("pk2", ref.Ident("xs"), ref.Ident("xs"), n(1)),
+		ref.Call("pk2", ref.Ident("ys"), ref.List(n(1)), ref.Str("k")), ref.Call("pk2", ref.List(n(1)), ref.List(n(2)), ref.Ident("n")), ref.Call("pk2", ref.Ident("ys"), ref.List(ref.Str("s")), n(1)),
+		ref.Call("pk3", ref.Ident("ms"), n(1), ref.Ident("ms")), ref.Call("pk3", ref.Ident("ms"), ref.Str("s"), ref.Map([]*ref.E{ref.Str("k")}, []*ref.E{n(1)})), ref.Call("pk3", ref.Ident("ms"), ref.Ident("ms"), ref.Ident("ms")),
+		ref.Call("pk4", ref.Ident("o"), ref.Ident("o"), n(1), n(2)), ref.Call("pk4", ref.Ident("o"), ref.Obj([]string{"b", "a"}, []*ref.E{ref.Str("x"), n(1)}), ref.Str("s"), ref.Str("t")),
+		ref.Call("pk4", ref.Ident("o"), ref.Ident("o"), n(1), ref.Str("s")), ref.Call("pk4", ref.Ident("o"), ref.Ident("o"), ref.Ident("o"), ref.Ident("o")),
 		// documented corner cases of the built-ins
 		ref.Call("len", ref.List()), ref.CallF(ref.FInfix, "==", ref.List(), ref.List()), ref.CallF(ref.FInfix, "==", ref.List(n(1)), ref.List()),
 		ref.CallF(ref.FInfix, "==", ref.List(), ref.List(n(1))), ref.Call("union", ref.List(n(1)), ref.List()), ref.Call("union", ref.List(), ref.List(n(1))),
@@ -758,9 +776,89 @@ func oracleC06(c *run.Ctx, o *ProgObs) {
 	})
 }
 
+// facadeRepeatC06: through the public engine: one Callable compiled without
+// any variables (nil, empty map, empty struct, empty *types.Env) or with
+// them, invoked several times; every invocation calls the host functions the
+// program determines -- the second and third as much as the first.
+func facadeRepeatC06(c *run.Ctx) {
+	user := ref.UserFuns()
+	ft := funTable(user)
+	cases := lazyCases()
+	for i, pc := range cases {
+		if !c.Mine(i) {
+			continue
+		}
+		pc := pc
+		c.Case("facade-"+pc.ID, func() {
+			c.Input(pc.Src)
+			usesVars := false
+			pc.E.Walk(func(e *ref.E) {
+				if e.K == ref.EIdent {
+					usesVars = true
+				}
+			})
+			e := pc.E.Clone()
+			if _, err := ref.Check(e, pc.Env.T, ft); err != nil {
+				return
+			}
+			ev := &ref.Evaluator{Env: pc.Env.V, FT: ft, Loc: time.Local}
+			out := ev.Eval(e)
+			if out.Silent != nil {
+				return
+			}
+			for ek := 0; ek < 2; ek++ {
+				eng := newC13Engine("facade", ek == 1, user)
+				var cenv, renv interface{} = pc.Env.TypeEnv(), pc.Env.ValEnv()
+				if !usesVars {
+					switch i % 4 {
+					case 0:
+						cenv, renv = nil, nil
+					case 1:
+						cenv, renv = map[string]interface{}{}, map[string]interface{}{}
+					case 2:
+						cenv, renv = struct{}{}, struct{}{}
+					default:
+						cenv, renv = types.NewEnv(), val.NewEnv()
+					}
+				}
+				cl, co := facadeCompile(eng, pc.Src, cenv)
+				if cl == nil {
+					c.Violation("host-call-trace", fmt.Sprintf("the engine does not compile %s (%s %s)", short(pc.Src), co.Kind, co.Detail), nil)
+					return
+				}
+				for rep := 0; rep < 3; rep++ {
+					obs := eng.sess.Begin()
+					var v *val.Val
+					var err error
+					func() {
+						defer func() {
+							if r := recover(); r != nil {
+								err = fmt.Errorf("panic: %v", r)
+							}
+						}()
+						v, err = cl(renv)
+					}()
+					c.Count("traces_compared", 1)
+					c.Count("trace_entries", len(ev.Trace))
+					if !sameTrace(ev.Trace, obs.Trace) {
+						c.Violation("host-call-trace", fmt.Sprintf("invocation %d of one Callable (engine %d, compile environment %T) invoked host functions [%s]; the program determines [%s] :: %s", rep+1, ek, cenv, traceStr(obs.Trace), traceStr(ev.Trace), short(pc.Src)), nil)
+						return
+					}
+					if (out.Fail == nil) != (err == nil) {
+						c.Violation("unselected-operand-ran", fmt.Sprintf("invocation %d of one Callable ends %v %v; the reference outcome is %s :: %s", rep+1, safeStr(v), err, out, short(pc.Src)), nil)
+						return
+					}
+				}
+			}
+			c.Distinct("facade-" + pc.ID)
+		})
+	}
+}
+
 func init() {
 	run.Register(&run.Spec{
 		ID: "C06", Run: func(c *run.Ctx) {
+			facadeRepeatC06(c)
 			user := append(ref.UserFuns(), ref.Twice())
 			opt := ref.GenOpt{MaxDepth: 6, PFail: 0.15, PSugar: 0.6, PBoundary: 0.2, PGroup: 0.03, UserFuns: true}
 			fixedCases(c, lazyCases(), oracleC06)
@@ -769,7 +867,7 @@ func init() {
 			fixedCases(c, permCases(), oracleC06)
 		},
 		Level: "exploration",
-		Rule: "enumerated laziness families: every lazy form (if, ?:, &&, ||, user lzIf / lzAnd / pick3) × every selection with effect-recording operands and failing-and-recording operands in the unselected positions, nested two and three deep (deferred code that calls lazy functions), rev2 / twice (thunks forced in reverse / twice), every strict operand position (arguments, list elements, map key-then-value, object fields, container-then-index, receiver-then-arguments), the guarded idiom if(isset(m,k), m[k], d) over present / absent keys; then random programs with 15% failing sub-terms; " +
+		Rule: "enumerated laziness families: every lazy form (if, ?:, &&, ||, user lzIf / lzAnd / pick3) × every selection with effect-recording operands and failing-and-recording operands in the unselected positions, nested two and three deep (deferred code that calls lazy functions), rev2 / twice (thunks forced in reverse / twice), every strict operand position (arguments, list elements, map key-then-value, object fields, container-then-index, receiver-then-arguments), the guarded idiom if(isset(m,k), m[k], d) over present / absent keys; then random programs with 15% failing sub-terms; the enumerated families once more through the public engine (vm and closure compiler), compiled with no variables at all (nil / empty map / empty struct / empty *types.Env) where the program uses none, one Callable invoked three times; " +
 			"monitor = ordered host-call trace and failure/value outcome compared with the reference evaluator's, on 4 back ends. distinct = case id or distinct source",
 		Assume:    []string{"trace entries are (function, rendered arguments); lazy functions record at entry"},
 		MinEvents: 2000, EventKey: "traces_compared",
